@@ -466,3 +466,42 @@ class FullModelClpLabels(_ResultData):
 
     def bounded_checks(self, tier, seed):
         return []
+
+
+def _scaled_constant_columns(self, tier, seed):
+    """B: megacomplexes whose column is a constant (baseline) carry their megacomplex scale every time the dataset matrix is
+    built - evaluated repeatedly, for two datasets in both declaration orders, next to a decay megacomplex: the column under
+    `<dataset>_baseline` is the scale of that dataset's baseline (1 without scale), whatever was evaluated before."""
+    import numpy as np
+
+    from glotaran.builtin.megacomplexes.baseline import BaselineMegacomplex
+    from glotaran.builtin.megacomplexes.decay import DecayParallelMegacomplex
+    from glotaran.model import Model
+    from glotaran.model.item import fill_item
+    from glotaran.optimization.matrix_provider import MatrixProvider
+    from glotaran.parameter import Parameters
+
+    M = Model.create_class_from_megacomplexes([DecayParallelMegacomplex, BaselineMegacomplex])
+    pars = Parameters.from_dict({"k": [0.5, 0.1], "sc": [1.0, 3.0, 0.25]})
+    model_axis, global_axis = np.arange(0.0, 6.0), np.array([0.0, 1.0])
+    bad, n = None, 0
+    for order in (("scaled", "plain", "other"), ("plain", "other", "scaled"), ("other", "scaled", "plain")):
+        datasets = {
+            "scaled": {"megacomplex": ["m", "b"], "megacomplex_scale": ["sc.1", "sc.2"]},
+            "plain": {"megacomplex": ["m", "b"]},
+            "other": {"megacomplex": ["b", "m"], "megacomplex_scale": ["sc.3", "sc.1"]},
+        }
+        model = M(megacomplex={"m": {"type": "decay-parallel", "compartments": ["s1", "s2"], "rates": ["k.1", "k.2"]}, "b": {"type": "baseline", "dimension": "time"}}, dataset={k: datasets[k] for k in order})
+        want = {"scaled": 3.0, "plain": 1.0, "other": 0.25}
+        for rep in range(3):
+            for lab in order:
+                n += 1
+                dm = fill_item(model.dataset[lab], model, pars)
+                container = MatrixProvider.calculate_dataset_matrix(dm, global_axis, model_axis)
+                col = np.asarray(container.matrix)[..., list(container.clp_labels).index(f"{lab}_baseline")]
+                if not np.array_equal(col, np.full(col.shape, want[lab])):
+                    bad = bad or {"declaration_order": order, "evaluation": rep, "dataset": lab, "baseline_column": np.unique(col).tolist(), "expected": want[lab]}
+    return [{"name": "bounded_constant_columns_carry_their_own_scale_at_every_evaluation", "ok": bad is None and n > 0, "case": f"{n} dataset matrices (3 declaration orders x 3 evaluations x 3 datasets)", "function": "glotaran.optimization.matrix_provider:MatrixProvider.calculate_dataset_matrix", "witness": bad, "detail": "bounded stand-in: repeated native evaluation of builtin megacomplexes"}]
+
+
+BuiltinPermutation.bounded_checks = _scaled_constant_columns
